@@ -6,6 +6,8 @@ pub mod c05;
 pub mod c06;
 pub mod c07;
 pub mod c08;
+pub mod c09;
+pub mod c15;
 pub mod common;
 
 use crate::engine::PropertySpec;
@@ -20,8 +22,10 @@ pub fn spec(id: &str) -> Option<PropertySpec> {
         "C06" => Some(c06::spec()),
         "C07" => Some(c07::spec()),
         "C08" => Some(c08::spec()),
+        "C09" => Some(c09::spec()),
+        "C15" => Some(c15::spec()),
         _ => None,
     }
 }
 
-pub const ALL: [&str; 8] = ["C01", "C02", "C03", "C04", "C05", "C06", "C07", "C08"];
+pub const ALL: [&str; 10] = ["C01", "C02", "C03", "C04", "C05", "C06", "C07", "C08", "C09", "C15"];
